@@ -565,7 +565,11 @@ def execute(case):
                         ref = V["refs"][slot]
                         out.probe("held_reference_used")
                     else:
-                        ref = list(lv.iter_value_references())[k]
+                        allrefs = list(lv.iter_value_references())
+                        if len(allrefs) != len(m):
+                            where.update(references=len(allrefs), values=len(m))
+                            raise Violation("open-view-differs-from-edited-list", op, where)
+                        ref = allrefs[k]
                     if ref.value != m[k]:
                         where.update(reference_value=ref.value, want=m[k])
                         raise Violation("value-reference-reads-wrong-value", op, where)
